@@ -75,15 +75,34 @@ def contracts():
         entry=BV + ' lemma_long_div4(*xh as int, *xl as int, y as int); lemma_div_by_one(u256(*xh as int, *xl as int));')
     d['u128_msb'] = C(
         pre=['i != 0'],
-        post=[('u128_msb.msb', 'is_msb(i, r as int)')],
-        entry='broadcast use group_msb;')
+        post=[('u128_msb.range', 'r < 128'), ('u128_msb.msb', 'is_msb(i, r as int)')],
+        entry='broadcast use group_msb; reveal(is_msb);')
+    def digit_loop(q, u32, u1):
+        args = '%s as int, rhat as int, %s as int, %s as int, y as int, yn1 as int, yn0 as int' % (q, u32, u1)
+        done = 'digit_done(%s as int, %s as int, %s as int, y as int)' % (q, u32, u1)
+        return Loop(
+            inv=['B as int == B64()',
+                 'digit_ctx(%s as int, %s as int, y as int, yn1 as int, yn0 as int)' % (u32, u1)],
+            invariant_except_break=[
+                'B as int == B64()',
+                'digit_ctx(%s as int, %s as int, y as int, yn1 as int, yn0 as int)' % (u32, u1),
+                'digit_est(%s)' % args,
+                'rhat < B64()',
+                '%s < B64() ==> %s * yn0 < B128()' % (q, q),
+                '(%s < B64() && %s * yn0 <= rhat * B64() + %s) ==> %s' % (q, q, u1, done)],
+            ensures=[done],
+            dec=q,
+            body_entry='lemma_b128(); lemma_digit_step(%s);' % args)
     d['u256_idiv_u128_special'] = C(
         pre=['*old(xh) < y', 'y >= B64()'],
         post=[('C16.div128s.hi_zero', '*final(xh) == 0'),
               ('C16.div128s.quot', '*final(xl) == %s / (y as int)' % X256),
               ('C16.div128s.rem', 'r == %s %% (y as int)' % X256),
               ('C16.div128s.identity', '*final(xl) * y + r == %s && r < y' % X256)],
-        stub=True)
+        entry=('broadcast use group_knuth; lemma_b128(); '
+               'assert((1u128 << 64) == 0x1_0000_0000_0000_0000u128) by (bit_vector); '
+               'lemma_div_forms(u256(*xh as int, *xl as int), y as int);'),
+        loops=[digit_loop('q1', 'xn32', 'xn1'), digit_loop('q0', 't', 'xn0')])
     d['u256_idiv_u128'] = C(
         pre=['y > 0'],
         post=[('C16.div128.quot', '%s == %s / (y as int)' % (Q256, X256)),
